@@ -342,3 +342,117 @@ class BoundaryRowsEmbedding(_Embed):
         if not w.symbolic:
             w.scale = 1e3
         return res
+
+
+# ------------------------------------------------------------------------------------------------
+#  cyclic shift along a periodic uniform axis
+
+def _remap(w, arr, axis, mp):
+    """array with the same shape whose entry at index k along `axis` is arr's entry at mp(k)"""
+    if w.symbolic:
+        snap = arr.snap()
+
+        def fn(idx):
+            j = list(idx)
+            j[axis] = mp(I(idx[axis]))
+            return snap(tuple(j))
+        return SymNDArray.from_fn(tuple(arr.shape), fn, 'real', origin='remap')
+    a = T.real_np.asarray(arr, dtype=float)
+    return T.real_np.take(a, [int(mp(k)) for k in range(a.shape[axis])], axis=axis).copy()
+
+
+def _eq(w, k, v):
+    return CTX.decide(I(k) == I(v)) if w.symbolic else (int(k) == int(v))
+
+
+class _PeriodicShift(_Embed):
+    """Cartesian grid, axis `ax` uniform and periodic: shifting all data by one cell along that axis (cell fields,
+    face coefficients; periodic ghost cells = wrap) shifts every term by one cell:
+        T[shifted data](shifted field)[i] = T[data](field)[i-1]   (i >= 2),      ...[1] = ...[N]
+    for diffusion, central and upwind convection, the TVD correction and the explicit divergence; a shift by s cells
+    follows by iteration (lemma invariant_iterate), solutions by uniqueness (unique_solution)."""
+    ax = 0
+    uf_congruence = False
+
+    def parts(self, w):
+        return list(range(w.nd))
+
+    def setup(self, w):
+        a = self.ax
+        N = w.N[a]
+        x0 = w.scalar('x0')
+        h = w.scalar('hstep', 'pos')
+        fm = [None] * w.nd
+        if w.symbolic:
+            fm[a] = lambda f: SymNDArray.from_fn((N + 1,), (lambda idx: R.of(x0) + R.of(I(idx[0])) * R.of(h)), 'real', origin='uniform')
+        else:
+            fm[a] = lambda f: x0 + h * T.real_np.arange(len(f), dtype=float)
+        mesh = T.make_mesh(w.src, w.grid, facemap=fm)
+
+        wrap_c = lambda k: (N if _eq(w, k, 0) else (1 if _eq(w, k, N + 1) else k))           # noqa: E731
+        shift_c = lambda k: (N - 1 if _eq(w, k, 0) else k - 1)                              # noqa: E731  (on a wrapped array)
+        wrap_f = lambda f: (0 if _eq(w, f, N) else f)                                        # noqa: E731
+        shift_f = lambda f: (N - 1 if _eq(w, f, 0) else f - 1)                              # noqa: E731
+        shift_i = lambda m: (N - 1 if _eq(w, m, 0) else m - 1)                              # noqa: E731
+
+        full = w.rawcell('p')._value
+        phi = _remap(w, full, a, wrap_c)
+        phis = _remap(w, phi, a, shift_c)
+        out = dict(phi=phi, phis=phis)
+
+        def pair(prefix):
+            k = w.facevar(prefix)
+            comps, comps_s = [], []
+            for b in range(w.nd):
+                c = getattr(k, '_' + AX[b] + 'value')
+                if b == a:
+                    cp = _remap(w, c, a, wrap_f)
+                    comps.append(cp)
+                    comps_s.append(_remap(w, cp, a, shift_f))
+                else:
+                    comps.append(c)
+                    comps_s.append(_remap(w, c, a, shift_i))
+            while len(comps) < 3:
+                comps.append(w.np.array([]))
+                comps_s.append(w.np.array([]))
+            return fac.FaceVariable(mesh, *comps), fac.FaceVariable(mesh, *comps_s)
+        for nm, mod, pre in (('diffusionTerm', dif, 'D'), ('convectionTerm', adv, 'u'), ('convectionUpwindTerm', adv, 'v'),
+                             ('divergenceTerm', cal, 'F')):
+            k, ks = pair(pre)
+            out[nm] = (parts(builder(mod, nm, w.grid)(k))[1], parts(builder(mod, nm, w.grid)(ks))[1])
+        k, ks = pair('t')
+        FL = sym_limiter(w) if w.symbolic else pf.fluxLimiter('SUPERBEE')
+        out['tvd'] = (parts(builder(adv, 'convectionTvdRHS', w.grid)(k, T.RawCell(mesh, phi), FL))[1],
+                      parts(builder(adv, 'convectionTvdRHS', w.grid)(ks, T.RawCell(mesh, phis), FL))[1])
+        return out
+
+    def claims(self, w, S, P, b):
+        a = self.ax
+        N = w.N[a]
+        first = _eq(w, P[a], 1)
+        Q = list(P)
+        Q[a] = N if first else P[a] - 1
+        Q = tuple(Q)
+        res = []
+        for nm in ('diffusionTerm', 'convectionTerm', 'convectionUpwindTerm'):
+            T0, Ts = S[nm]
+            res.append(('%s_shifts[%s]' % (nm, AX[b]), w.eq(w.apply(Ts[b], S['phis'], P), w.apply(T0[b], S['phi'], Q))))
+        for nm in ('divergenceTerm', 'tvd'):
+            T0, Ts = S[nm]
+            res.append(('%s_shifts[%s]' % (nm, AX[b]), w.eq(w.vec(Ts[b], P), w.vec(T0[b], Q))))
+        if not w.symbolic:
+            w.scale = 1e3
+        return res
+
+
+def _mk_shift():
+    for g in ('Grid1D', 'Grid2D', 'Grid3D'):
+        for ax in range(GRIDS[g]['nd']):
+            cn = 'PeriodicShift_%s_%s' % (g, AX[ax])
+            cls = type(cn, (_PeriodicShift,), dict(ax=ax, grids=(g,), name='periodic_shift/%s_axis' % AX[ax],
+                                                   quick=(ax == GRIDS[g]['nd'] - 1)))
+            cls.__module__ = __name__
+            globals()[cn] = cls
+
+
+_mk_shift()
